@@ -78,6 +78,53 @@ func c01(args []string) int {
 		b.Reset()
 		return 0
 	}
+	if c.extra == "reapply" { // a mocker object kept by the program and used again after Reset / Cancel must install its replacement again
+		tt := &fnzoo.T{K: 1}
+		type rc struct {
+			name string
+			mk   func(b *mocker.Builder) mocker.ExportedMocker
+			call func(int) int
+			cb   interface{}
+		}
+		cases := []rc{
+			{"F1", func(b *mocker.Builder) mocker.ExportedMocker { return b.Func(fnzoo.F1) }, fnzoo.F1, func(a int) int { return 4000 + a }},
+			{"G1", func(b *mocker.Builder) mocker.ExportedMocker { return b.Func(fnzoo.G1) }, fnzoo.G1, func(a int) int { return 4000 + a }},
+			{"T.M", func(b *mocker.Builder) mocker.ExportedMocker { return b.Struct(&fnzoo.T{}).Method("M") }, tt.M, func(_ *fnzoo.T, a int) int { return 4000 + a }},
+		}
+		for _, tc := range cases {
+			for variant := 0; variant < 4; variant++ {
+				out.Put(map[string]interface{}{"kind": "reapply-about", "name": tc.name, "variant": variant})
+				out.Flush()
+				b := mocker.Create()
+				mk := tc.mk(b)
+				got, want, pan := 0, 0, ""
+				func() {
+					defer func() {
+						if e := recover(); e != nil {
+							pan = trunc(fmt.Sprint(e), 80)
+						}
+					}()
+					mk.Apply(tc.cb)
+					if variant%2 == 0 {
+						b.Reset()
+					} else {
+						mk.Cancel()
+					}
+					if variant < 2 {
+						mk.Return(77)
+						want = 77
+					} else {
+						mk.Apply(tc.cb)
+						want = 4003
+					}
+					got = tc.call(3)
+				}()
+				b.Reset()
+				out.Put(map[string]interface{}{"kind": "reapply", "name": tc.name, "variant": variant, "got": got, "want": want, "panic": pan})
+			}
+		}
+		return 0
+	}
 	if c.extra == "retain" { // the replacement must stay reachable from goom itself: nothing of the program keeps the builder or the callback
 		type tcase struct {
 			name string
